@@ -9,6 +9,10 @@ VK_NOTE = ("trusted: the virtual kernel model (vk/kernel.hpp, vk/ops.hpp; bound 
            "oracle; the programs are the unmodified binaries built from /repo's working tree by its own Makefile")
 DAEMON_NOTE = VK_NOTE + "; spawners are controller scripts on the daemon's pipes (their own code is covered by C09/C11/C18), time is a virtual clock"
 CHECKS = {
+ "C16": dict(engine="VK", category="model_checking", design_ref="4/C16",
+             technique="preemption-bounded exhaustive interleaving of the real qmail-queue and qmail-send/qmail-clean binaries at the trigger/todo system calls under a virtual kernel with a frozen clock (scenarios A/B/C, both POSIX readdir behaviours), fair scheduling with spin/livelock detection, plus timeout monitors on deferred-delivery and TERM histories",
+             text="A lost wake-up exists only in particular interleavings of two processes; all interleavings of the injector's publish-then-signal steps with the daemon's re-arm-then-scan steps up to the preemption bound are executed on the real binaries, and at every quiescent point no committed message may be left unnoticed while the clock stands still.",
+             note=DAEMON_NOTE),
  "C04": dict(engine="VK", category="model_checking", design_ref="4/C04",
              technique="the C03 history exploration (real daemon binaries under the virtual kernel, deviation-bounded, crash points, TERM/restart) with exactly-once monitors evaluated at every delivery command and mark write, plus a configured x announced concurrency grid read back from the daemon's own status line",
              text="Exactly-once and bounded concurrency are properties of all event orders; every history within the deviation bound is executed on the real binaries and each delivery command is checked against the on-disk T/D record and the outstanding-attempt ledger.",
